@@ -211,3 +211,12 @@ Proof.
   - exfalso. exact (H1 _ eq_refl).
   - exfalso. exact (H2 eq_refl).
 Qed.
+
+(* MinidumpUnloadedModuleList::modules_at_address (`&self.modules[*idx]` over the sorted (range, index) vector, C08's
+   unloaded_build / unloaded_at): every index listed for an address is a position of the list *)
+Lemma unloaded_indices_in_range : forall (ranges : list orange) x i,
+  In i (C08.Model.unloaded_at (C08.Model.unloaded_build ranges) x) -> 0 <= i < blen ranges.
+Proof.
+  intros ranges x i H. apply C08.Proofs.unloaded_iff in H. destruct H as (r & Hin & _).
+  apply enumerate_in in Hin. destruct Hin as (Hi & _). rewrite Z.add_0_l in Hi. exact Hi.
+Qed.
